@@ -131,6 +131,20 @@ func genConstruct(r *rand.Rand, wild bool) *ConstructCase {
 			c.NewReqs = append(c.NewReqs, nr)
 		}
 	}
+	if r.Intn(3) == 0 {
+		// one package under two requirement keys (npm: plain and aliased; Maven: jar and tests
+		// classifier) at one version, both moved to one new version: two updates that differ in
+		// their Type only - both must be reported
+		other := dep.NewType()
+		if sys == resolve.NPM {
+			other.AddAttr(dep.KnownAs, "twin")
+		} else {
+			other.AddAttr(dep.MavenClassifier, "tests")
+		}
+		nm, from, to := "tw", pick(r, vers[:4]), pick(r, vers[:4])
+		c.OldReqs = append(c.OldReqs, mkReq(sys, nm, from, dep.NewType()), mkReq(sys, nm, from, other))
+		c.NewReqs = append(c.NewReqs, mkReq(sys, nm, to, dep.NewType()), mkReq(sys, nm, to, other))
+	}
 	for k := r.Intn(3); k > 0; k-- { // additions
 		t := mgmtType()
 		if sys == resolve.NPM {
